@@ -72,7 +72,7 @@ var c19Others = []string{"Expenses:Food", "Expenses:Rent", "Income:Salary", "Equ
 
 // genC19Journal returns the directives (as text) of a valid journal, the number of distinct
 // dates and, per date, nothing else; failure kinds mutate it afterwards.
-func genC19Journal(r *rng, kind string) (dirs []string, ndays int) {
+func genC19Journal(r *rng, kind string) (dirs []string, ndays int, injected bool) {
 	nd := r.rangeInt(3, 24)
 	start := time.Date(2019+r.intn(4), time.Month(1+r.intn(12)), 1+r.intn(27), 0, 0, 0, 0, time.UTC)
 	var dates []time.Time
@@ -87,13 +87,11 @@ func genC19Journal(r *rng, kind string) (dirs []string, ndays int) {
 	for _, a := range accounts {
 		dirs = append(dirs, fmt.Sprintf("%s open %s", open0, a))
 	}
-	seen := map[string]bool{open0: true}
 	// prices for USD before anything else happens in USD
 	dirs = append(dirs, fmt.Sprintf("%s price USD 0.9%d CHF", open0, r.intn(10)))
 	bal := map[string]int{}
 	badDay := dates[r.intn(len(dates))]
 	for _, dt := range dates {
-		seen[day(dt)] = true
 		if r.chance(30) {
 			dirs = append(dirs, fmt.Sprintf("%s price USD %d.%02d CHF", day(dt), r.intn(2), 80+r.intn(19)))
 		}
@@ -113,24 +111,39 @@ func genC19Journal(r *rng, kind string) (dirs []string, ndays int) {
 			amt := r.rangeInt(1, 5000)
 			if kind == "noprice" && dt.Equal(badDay) && k == 0 {
 				com = "XYZ"
+				injected = true
 			}
 			if kind == "notopen" && dt.Equal(badDay) && k == 0 {
 				dr = "Assets:NeverOpened"
+				injected = true
 			}
 			bal[cr+" "+com] -= amt
 			bal[dr+" "+com] += amt
 			dirs = append(dirs, fmt.Sprintf("%s \"t%d %s\"\n%s %s %d %s", day(dt), k, strings.Repeat("x", r.intn(8)), cr, dr, amt, com))
 		}
-		if r.chance(35) || (kind == "assert" && dt.Equal(badDay)) {
-			a := pick(r, c19Assets)
+		// assertions only on positions that have been posted to (an assertion of 0 on an untouched
+		// position is rejected by the pinned tree: DESIGN.md section 8, F1 - not this property's business)
+		var touched []string
+		for _, a := range c19Assets {
+			if _, ok := bal[a+" CHF"]; ok {
+				touched = append(touched, a)
+			}
+		}
+		if len(touched) > 0 && (r.chance(35) || (kind == "assert" && dt.Equal(badDay))) {
+			a := pick(r, touched)
 			v := bal[a+" CHF"]
 			if kind == "assert" && dt.Equal(badDay) {
 				v += 1 + r.intn(9)
+				injected = true
 			}
 			dirs = append(dirs, fmt.Sprintf("%s balance %s %d CHF", day(dt), a, v))
 		}
 	}
-	return dirs, len(seen)
+	distinct := map[string]bool{}
+	for _, d := range dirs {
+		distinct[d[:10]] = true
+	}
+	return dirs, len(distinct), injected
 }
 
 func genC19(out *caseWriter, seed uint64, n int, args []string) error {
@@ -139,7 +152,10 @@ func genC19(out *caseWriter, seed uint64, n int, args []string) error {
 	for i := 0; i < n; i++ {
 		r := newRng(seed, "C19", i)
 		kind := kinds[r.intn(len(kinds))]
-		dirs, ndays := genC19Journal(r, kind)
+		dirs, ndays, injected := genC19Journal(r, kind)
+		if !injected && (kind == "assert" || kind == "noprice" || kind == "notopen") {
+			kind = "ok" // the failure could not be placed (e.g. no position to assert on): a valid journal
+		}
 		c := c19Case{sched: 1 + r.intn(1000000), kind: kind, ndir: len(dirs), ndays: ndays}
 		// command and flags
 		switch r.intn(10) {
